@@ -658,7 +658,9 @@ class QGen:
         comb = self.pick(["+", "-", "*"])
         self.labels.add("lambda-invoked-twice")
         self.nops += 2
-        return (f"(lambda {g_}: {g_}({a}) {comb} {g_}({b}))(lambda {x_}: {body})", "double" if ("0.5" in body or "if" in body or ka != "int" or kb != "int") else "int")
+        # the kind of one call: the argument's own kind for the arithmetic bodies (int and float stay what they are), double for the others
+        one = lambda k_: "double" if ("0.5" in body or "if" in body) else wider(k_ if k_ != "bool" else "int", "int")
+        return (f"(lambda {g_}: {g_}({a}) {comb} {g_}({b}))(lambda {x_}: {body})", wider(one(ka), one(kb)))
 
     def aggregate(self, scope, fuel) -> Tuple[str, str]:
         f = self.f
